@@ -88,6 +88,9 @@ def ref_timetable(p, seq):
     raise AssertionError
 
 
+MSGS = ['{"status": 503, "error": {"code": "busy"}}', '{}', '{0}', 'unbalanced { brace', '100% of %s quota used %d', '}{', 'failed: {name!r:>10}', '\\N{BULLET} \x00 \n second line']
+
+
 def exec_retry(case) -> Result:
     res = Result(counters={})
     p, seq, cancel_at = case['p'], case['seq'], case.get('cancel_at')
@@ -105,7 +108,9 @@ def exec_retry(case) -> Result:
         if oc['k'] == 'ok':
             made[k] = ('val', f'v{k}')
             return made[k][1]
-        exc = (Listed2 if oc.get('sub') else (ListedEmpty if oc.get('falsy') else Listed))(f'l{k}') if oc['k'] == 'listed' else Unlisted(f'u{k}')
+        # (message texts as real services produce them: JSON bodies, format-like fragments)
+        text = MSGS[oc['msg']] if oc.get('msg') is not None else None
+        exc = (Listed2 if oc.get('sub') else (ListedEmpty if oc.get('falsy') else Listed))(text or f'l{k}') if oc['k'] == 'listed' else Unlisted(text or f'u{k}')
         if oc.get('cause'):  # `raise X from Y`: only the type of X decides whether the attempt is retried
             exc.__cause__ = (Listed if oc['cause'] == 'listed' else Unlisted)('the cause')
         made[k] = ('exc', exc)
@@ -226,7 +231,7 @@ class RetryFamily(Family):
                 c = rng.choice(['ok', 'listed', 'listed', 'listed', 'unlisted', 'overrun'])
                 # (with timeout=None a very long attempt is simply a long attempt)
                 seq.append({'k': 'ok' if c == 'overrun' else c, 'd': (p['timeout'] or 30.0) + rng.choice([0.5, 3.0]) if c == 'overrun' else rng.choice([0.0, 0.01, 0.3]), 'sub': rng.random() < 0.3,
-                            'cause': rng.choice([None, None, 'listed', 'unlisted']), 'falsy': rng.random() < 0.25})
+                            'cause': rng.choice([None, None, 'listed', 'unlisted']), 'falsy': rng.random() < 0.25, 'msg': rng.randrange(len(MSGS)) if rng.random() < 0.3 else None})
             i += 1
             yield {'family': self.name, 'i': i, 'p': p, 'seq': seq}
             starts, final, end = ref_timetable(p, seq)
@@ -504,6 +509,14 @@ def exec_sem(case) -> Result:
             obs[i]['exit'] = loop.time()
 
     class _KBase:
+        # instances are value objects: all instances of one class compare equal and hash alike (a frozen dataclass with equal
+        # fields) - 'self' scope still means THIS instance
+        def __eq__(self, other):
+            return type(other) is type(self)
+
+        def __hash__(self):
+            return hash(type(self).__name__)
+
         # ONE decorated function object reached through instances of two classes (inherited method): 'class' scope means the
         # runtime class of the instance, so KA and KB must not share slots
         @deco('class')
